@@ -20,6 +20,7 @@ func propC05(c *Ctx) propInfo {
 	c.codecPair("E5.codec-pair", "tlb.HashmapE", c.genericMethod("tlb", "HashmapE", "MarshalTLB"), c.genericMethod("tlb", "HashmapE", "UnmarshalTLB"), nil)
 	c.codecPair("E5.codec-pair", "tlb.HashmapAugE", c.genericMethod("tlb", "HashmapAugE", "MarshalTLB"), c.genericMethod("tlb", "HashmapAugE", "UnmarshalTLB"), nil)
 	c.writeWidthPreconditions("tlb", "wallet")
+	c.labelCoversAllKeys()
 	c.floor("E5.label-forms", 5)
 	c.floor("E10.dict-recursion", 6)
 	c.floor("E10.parallel-slices", 3)
@@ -386,4 +387,127 @@ func (c *Ctx) writeWidthPreconditions(rels ...string) {
 var excWidth = map[string]string{
 	"(tlb.Anycast).MarshalTLB boc.Cell.WriteUint width *&a.Depth": "anycast depth is a (#<= 30) field: its TL-B domain is 0..30 and it is written with the 5-bit bounded writer just before",
 	"tlb.encodeSumTag boc.Cell.WriteUint width *&t.Len":           "t comes from ParseTag on a struct tag (a constant of the program): at most 32 bits by the tag grammar (E3a checks every tag)",
+}
+
+// labelCoversAllKeys: the edge label written at a node must be the prefix common to ALL keys of the
+// node. Two recognised ways to get there: (A) encodeMap selects the second key for encodeLabel by a
+// loop over all keys that minimises the common prefix with the first key; or (B) it uses the first
+// and last key and every producer of Hashmap.keys keeps the slice in bit order (constructors sort,
+// Put inserts in bit order). The pinned tree originally did neither (NewHashmap stores the caller's
+// order, Put orders signed keys numerically) - see known_findings.json.
+func (c *Ctx) labelCoversAllKeys() {
+	const R = "E10.dict-label-all-keys"
+	f := c.genericMethod("tlb", "Hashmap", "encodeMap")
+	if f == nil {
+		c.bad(R, "encodeMap", 0, "tlb.Hashmap.encodeMap not found (anchor moved?)")
+		return
+	}
+	calls := callsTo(f, modPath+"/tlb.encodeLabel")
+	if len(calls) != 1 {
+		c.bad(R, "encodeMap label", f.Pos(), fmt.Sprintf("encodeMap calls encodeLabel %d times; one confirmed", len(calls)))
+		return
+	}
+	cl := calls[0]
+	idxOf := func(v ssa.Value) ssa.Value {
+		if ia, ok := v.(*ssa.IndexAddr); ok {
+			return ia.Index
+		}
+		return nil
+	}
+	i0, i1 := idxOf(cl.Call.Args[1]), idxOf(cl.Call.Args[2])
+	k0, isK0 := constInt(i0)
+	// (A) the second index is a loop-carried selection over all keys
+	okA := false
+	whyA := ""
+	if ph, ok := i1.(*ssa.Phi); ok && isK0 && k0 == 0 {
+		// find the loop-carried phi it comes from (the value after the loop is the header phi)
+		srcs := phiSources(ph)
+		viaCmp := len(srcs) > 0
+		for blk, v := range srcs {
+			// the new index is the loop counter and the update is guarded by a comparison that depends on
+			// a function of (&keys[0], &keys[i])
+			guard := false
+			for _, ft := range factsAt(f, blk) {
+				if derivesFrom(ft.Cond, func(x ssa.Value) bool {
+					c2 := callOf(x)
+					if c2 == nil || len(c2.Call.Args) < 2 {
+						return false
+					}
+					a, b := idxOf(c2.Call.Args[0]), idxOf(c2.Call.Args[1])
+					ka, okA := constInt(a)
+					return okA && ka == 0 && b == v
+				}, false) {
+					guard = true
+				}
+			}
+			// also accept the guard on the block that assigns (the If is in the same block as the call)
+			if !guard {
+				for _, p := range blk.Preds {
+					if iff := lastIf(p); iff != nil && derivesFrom(iff.Cond, func(x ssa.Value) bool {
+						c2 := callOf(x)
+						if c2 == nil || len(c2.Call.Args) < 2 {
+							return false
+						}
+						a, b := idxOf(c2.Call.Args[0]), idxOf(c2.Call.Args[1])
+						ka, okK := constInt(a)
+						return okK && ka == 0 && b == v
+					}, false) {
+						guard = true
+					}
+				}
+			}
+			if !guard {
+				viaCmp = false
+			}
+			// the loop visits every index: its bound is len(keys)
+			bound := false
+			for _, b := range f.Blocks {
+				if iff := lastIf(b); iff != nil && inLoop(b) {
+					if bo, ok := iff.Cond.(*ssa.BinOp); ok && bo.Op == token.LSS && bo.X == v {
+						if c3 := callOf(bo.Y); c3 != nil {
+							if bi, ok := c3.Call.Value.(*ssa.Builtin); ok && bi.Name() == "len" && strings.Join(leaves(c3.Call.Args[0]), ",") == "keys" {
+								bound = true
+							}
+						}
+					}
+				}
+			}
+			if !bound {
+				viaCmp = false
+				whyA = fmt.Sprintf("the selecting loop does not run over all of keys (guard=%v v=%s)", guard, v.Name())
+			}
+		}
+		okA = viaCmp
+	}
+	// (B) first/last with sorted producers
+	okB := false
+	if !okA {
+		lastIdx := false
+		if bo, ok := i1.(*ssa.BinOp); ok && bo.Op == token.SUB {
+			if k, ok := constInt(bo.Y); ok && k == 1 {
+				lastIdx = true
+			}
+		}
+		sorted := true
+		for _, name := range []string{"NewHashmap", "NewHashmapE"} {
+			g := c.fn("tlb", name)
+			if g == nil {
+				continue
+			}
+			hasSort := false
+			for _, ci := range callsIn(g) {
+				q := callQName(ci.Common())
+				if strings.HasPrefix(q, "sort.") || strings.HasPrefix(q, "slices.Sort") {
+					hasSort = true
+				}
+			}
+			if !hasSort {
+				sorted = false
+			}
+		}
+		okB = lastIdx && sorted
+	}
+	c.check(okA || okB, R, "the node label is the prefix common to all keys of the node", cl.Pos(), map[bool]string{true: "second key selected by a minimising loop over all keys", false: "first/last key of a slice every producer keeps in bit order"}[okA],
+		"Hashmap.encodeMap derives the edge label from two fixed keys (first and last) although the key slice is not kept in bit order by its producers (NewHashmap/NewHashmapE store the caller's order, Put orders signed keys numerically): with keys {1, 0x80000000, 0x40000000} the entry 0x80000000 is encoded under key 0. "+whyA)
+	c.floor(R, 1)
 }
